@@ -84,7 +84,9 @@ def run(ctx):
             rj = lst[0]
             a, b = texts[rj["a"] - 1], texts[rj["b"] - 1]
             c = texts[rj["c"] - 1] if rj.get("c") else ""
-            args = ["priority-pair", "a=" + a, "b=" + b] + (["c=" + c] if c else [])
+            lid = lambda k: [1, 2, 3, -4][(k - 1) % 4]      # the list ids priority-matrix gave the pool rules
+            args = ["priority-pair", "a=" + a, "b=" + b, "la=%d" % lid(rj["a"]), "lb=%d" % lid(rj["b"])] + (
+                ["c=" + c, "lc=%d" % lid(rj["c"])] if c else [])
             o = ctx.vh(args)
             h = holds(law, o)
             if h is True:
